@@ -1,6 +1,6 @@
 # Edited by hand as coverage grows; consumed by mkmanifest.py.
 NOTYET = "not claimed in this revision: the functions this property depends on are not yet under contract (work in progress, see DESIGN.md section 9)"
-for _p in ["C02","C03","C04","C06","C08","C11","C14","C16","C18","C19","C20"]:
+for _p in ["C02","C03","C04","C06","C08","C11","C14","C16","C18","C20"]:
     na(_p, NOTYET)
 na("C12", "tree equality across archive/tar, compress/gzip and the OS has no contract-level statement within reach of a function-modular verifier; the oras-go code in between is almost entirely calls into those libraries (DESIGN.md section 9, C12)")
 
@@ -41,3 +41,8 @@ claim("C13",
   "Validation clauses only (second sentence of the property): unbounded proof that verifyContentDigest is exact, generateBlobDescriptor/generateDescriptor implement the documented decision table (length, header digest, reference digest, HEAD needs a digest), blob and manifest Fetch return a reader only for status 200 with consistent length and digest header and close the body on every error path, 404 maps to ErrNotFound, routing between blob and manifest endpoints is exactly membership in the configured (or default) manifest media types, and the seekable reader sends a Range request only for a position strictly inside the content with header bounds offset..size-1, accepts only 206, keeps its position on error and advances its offset by the bytes read.",
   "Assumed: contracts of net/http, mime, go-digest Parse (Parse(s) returns s and an error iff s is not a digest), Repository.do and AppendRepositoryScope (trusted frames), fmt.Sprint* pure. Not decided: registry state and histories, that every request is one the distribution spec allows, Push/Mount/Resolve/FetchReference/delete paths (not yet under contract), 64-bit overflow of absurd seek offsets is excluded by hypothesis in the Seek postcondition.",
   "DESIGN.md section 9 C13")
+
+claim("C19",
+  "Unbounded proof on the real pack code with a ghost push log: every rejection named in the property (subject under v1.0, missing/invalid artifact type, invalid config media type, unsupported version) happens before any push; an invalid created annotation stops before the manifest push; the manifest handed to the push has the requested subject, artifact type, layers and config or the documented placeholders; every invented blob (empty config, empty layer) is present before the manifest is pushed; the returned descriptor's digest and size are those of exactly the bytes pushed, its media type, artifact type and annotations as requested; a supplied valid created annotation is kept without reading the clock and the caller's annotation map is never written.",
+  "Assumed: content.Pusher / ReadOnlyStorage interface contracts (push log, presence), json.Marshal, regexp.MatchString (opaque predicate), time.Parse/Now, go-digest FromBytes (opaque function of the byte slice), maps.Copy writes only its destination. packArtifact / packManifestV1_1_RC2 (deprecated Pack) are not under contract in this revision.",
+  "DESIGN.md section 9 C19")
